@@ -39,7 +39,7 @@
 (*   "norecover"    Write without the deferred recover         -> NoCrash      *)
 (*   "closepanics"  Close without its recover (not idempotent) -> NoCrash      *)
 (*   "dropdup"      a receive that leaves the item in the buffer -> Conservation *)
-(* NilSendEOF = TRUE judges the same code against the table AS DOCUMENTED      *)
+(* NilSend = "doc" judges the same code against the table AS DOCUMENTED        *)
 (* ("io.EOF if the channel is closed (or nil)", chan.go:334): ResultsOK /      *)
 (* NoParkOnNil are then violated - the documented-vs-actual divergence.        *)
 (***************************************************************************)
@@ -301,7 +301,7 @@ ResultsOK == bad = {}
 NBNeverParks == \A p \in Procs : pc[p] = "parked" => ~cur[p].nb
 
 \* as documented a send on a nil channel reports io.EOF: nobody can be parked sending on it
-NoParkOnNil == (NilSendEOF /\ IsNil) => \A p \in Senders : pc[p] # "parked"
+NoParkOnNil == (NilSend = "doc" /\ IsNil) => \A p \in Senders : pc[p] # "parked"
 
 \* at quiescence nobody is parked whose completion condition holds (ChanCore: the table says "block")
 NoStuck == Quiescent => \A p \in Procs : pc[p] = "parked" =>
